@@ -3,13 +3,15 @@
 
    Statements only; each is closed by a lemma of C14_Proofs.  They are about
    the shape programs of C14_Model.v (the very definitions that are extracted
-   and run against the library): for EVERY configuration satisfying the stated
+   and run against the library).  Every positive theorem has the form
+   [run (case_...) = Safe]: for EVERY configuration satisfying the stated
    validity premise — unbounded dimensions, component counts, particle counts,
-   call counts, operation sequences — no Eigen precondition of the entry point
-   fails ([check_shapes ... = None]) and the library's own validation does not
-   reject the configuration ([run ... = Safe], which is what the lemmas prove).
-   Where the statement is false of the faithful shape program the theorem is
-   [..._refuted] with a concrete configuration. *)
+   call counts, operation sequences — no Eigen precondition of the entry points
+   fails AND the library's own validation does not reject the configuration
+   ([Safe] excludes both [Fails] and [Threw]; the weaker [check_shapes = None]
+   follows by [check_none_of_safe]).  Where the statement is false of the
+   faithful shape program the theorem is [..._refuted : run ... = Fails e s]
+   with a concrete configuration. *)
 Require Import Arith List Bool String.
 Require Import BFL.C14_Model BFL.C14_Proofs.
 Import ListNotations.
@@ -19,15 +21,16 @@ Open Scope nat_scope.
         getTransitionProbability; D = 1, 2, 3 are Dim::OneD/TwoD/ThreeD (the
         statement holds for every D), any number of samples / states *)
 Theorem C14_WhiteNoiseAcceleration_safe D num sc pc :
-  check_shapes (case_wna D num (wna_d D) sc (wna_d D) sc (wna_d D) pc (wna_d D) pc) = None.
-Proof. exact (check_none_of_safe _ (case_wna_safe D num sc pc)). Qed.
+  run (case_wna D num (wna_d D) sc (wna_d D) sc (wna_d D) pc (wna_d D) pc) = Safe.
+Proof. exact (case_wna_safe D num sc pc). Qed.
 
-(* ---- SimulatedStateModel: constructor and ANY number of bufferData calls *)
-Theorem C14_SimulatedStateModel_safe D T calls : 0 < T ->
-  check_shapes (case_simstate D T (wna_d D) calls) = None.
-Proof. intro H. exact (check_none_of_safe _ (case_simstate_safe D T calls H)). Qed.
+(* ---- SimulatedStateModel: constructor and ANY sequence of bufferData / setProperty("reset") calls *)
+Theorem C14_SimulatedStateModel_safe D T ops : 0 < T ->
+  run (case_simstate D T (wna_d D) ops) = Safe.
+Proof. exact (case_simstate_safe D T ops). Qed.
 
-(* exhaustion is reported through the return value: call number k (from 0) returns true iff k < T *)
+(* exhaustion is reported through the return value: without a reset, call number k (from 0) returns
+   true iff k < T — a theorem about the transcribed cursor state machine (sim_next), by induction *)
 Theorem C14_bufferData_exhaustion_reported T calls k : k < calls ->
   nth k (sim_returns T calls) false = (k <? T).
 Proof. exact (sim_returns_spec T calls k). Qed.
@@ -37,127 +40,150 @@ Proof. exact (sim_returns_spec T calls k). Qed.
         number of freeze calls *)
 Theorem C14_SimulatedLinearSensor_safe D T ms calls num sc :
   0 < T -> ms <> [] -> Forall (fun c => c < wna_d D) ms -> 0 < D ->
-  check_shapes (case_linsensor D T (wna_d D) (wna_d D) ms (List.length ms) (List.length ms) calls num (wna_d D) sc) = None.
-Proof. intros. apply check_none_of_safe, case_linsensor_safe; assumption. Qed.
+  run (case_linsensor D T (wna_d D) (wna_d D) ms (List.length ms) (List.length ms) calls num (wna_d D) sc) = Safe.
+Proof. exact (case_linsensor_safe D T ms calls num sc). Qed.
 
 (* ---- HistoryBuffer: EVERY sequence of addElement / setHistorySize /
         decrease / increase / clear / getHistoryBuffer; in particular pop_back
         is never applied to an empty deque *)
 Theorem C14_HistoryBuffer_safe ssz ops : adds_sized ssz ops ->
-  check_shapes (case_history ssz ops) = None.
-Proof. intro H. exact (check_none_of_safe _ (case_history_safe ssz ops H)). Qed.
+  run (case_history ssz ops) = Safe.
+Proof. exact (case_history_safe ssz ops). Qed.
 
 (* ---- InitSurveillanceAreaGrid on 4-dimensional states, any grid, any particle count *)
 Theorem C14_InitSurveillanceAreaGrid_safe nx ny n l : ldim l = 4 ->
-  check_shapes (case_grid nx ny n l) = None.
-Proof. intro H. exact (check_none_of_safe _ (case_grid_safe nx ny n l H)). Qed.
+  run (case_grid nx ny n l) = Safe.
+Proof. exact (case_grid_safe nx ny n l). Qed.
+
+(* ... but it writes x, 0, y, 0 into every state column whatever its size: false for the 2- and
+   6-dimensional states of the 1-D and 3-D motion models *)
+Theorem C14_InitSurveillanceAreaGrid_state_2d_refuted :
+  run (case_grid 2 2 4 (Lay 2 0 false 0)) = Fails e_grid "col<<x,0,y,0".
+Proof. exact grid_state_2d_refuted. Qed.
+Theorem C14_InitSurveillanceAreaGrid_state_6d_refuted :
+  run (case_grid 1 3 3 (Lay 6 0 false 0)) = Fails e_grid "col<<x,0,y,0".
+Proof. exact grid_state_6d_refuted. Qed.
 
 (* ---- sigma_point(): every layout (linear, circular, quaternion or not, noise), any component count *)
-Theorem C14_sigma_point_safe l comps : check_shapes (case_sigma l comps) = None.
-Proof. exact (check_none_of_safe _ (case_sigma_safe l comps)). Qed.
+Theorem C14_sigma_point_safe l comps : run (case_sigma l comps) = Safe.
+Proof. exact (case_sigma_safe l comps). Qed.
 
 (* ---- augmentWithNoise on a particle set (once and twice, square or rejected non-square noise
         covariance), then the sigma points of the augmented set *)
 Theorem C14_augmentWithNoise_safe l comps qr qc qr2 qc2 :
-  check_shapes (case_psaug l comps qr qc qr2 qc2) = None.
-Proof. exact (check_none_of_safe _ (case_psaug_safe l comps qr qc qr2 qc2)). Qed.
+  run (case_psaug l comps qr qc qr2 qc2) = Safe.
+Proof. exact (case_psaug_safe l comps qr qc qr2 qc2). Qed.
 
-(* ---- unscented_transform: the five overloads, every input and output layout *)
+(* ---- UTWeight + unscented_transform: the five overloads, every input and output layout *)
 Theorem C14_unscented_transform_safe variant li comps w valid pr pc lo qr qc :
   ut_valid variant li comps w valid pr pc lo qr qc ->
-  check_shapes (case_ut variant li comps w valid pr pc lo qr qc) = None.
-Proof. intro H. exact (check_none_of_safe _ (case_ut_safe _ _ _ _ _ _ _ _ _ _ H)). Qed.
+  run (case_ut variant li comps w valid pr pc lo qr qc) = Safe.
+Proof. exact (case_ut_safe variant li comps w valid pr pc lo qr qc). Qed.
 
 (* in particular the additive measurement overload after a FAILED evaluation, any component count and
    measurement size (repaired by 49d7ed0; the old transcription and its witness are in C14_Regress.v) *)
 Theorem C14_unscented_transform_additive_measurement_failed_safe li comps pr pc lo :
   noise lo = 0 ->
-  check_shapes (case_ut 4 li comps (lcov li) false pr pc lo (lcov lo) (lcov lo)) = None.
+  run (case_ut 4 li comps (lcov li) false pr pc lo (lcov lo) (lcov lo)) = Safe.
 Proof.
-  intro H. apply check_none_of_safe, case_ut_safe. repeat split; try assumption; discriminate.
+  intro H. apply case_ut_safe. repeat split; try assumption; discriminate.
 Qed.
 
 (* ---- Kalman steps (beliefs without quaternions; output object of the input's shape) *)
 Theorem C14_KFPrediction_safe l comps : quat l = false ->
-  check_shapes (case_kfp (ldim l) l comps l comps) = None.
-Proof. intro H. exact (check_none_of_safe _ (case_kfp_safe l comps H)). Qed.
+  run (case_kfp (ldim l) l comps l comps) = Safe.
+Proof. exact (case_kfp_safe l comps). Qed.
 
 Theorem C14_KFCorrection_safe m l comps yc again : quat l = false -> 0 < yc ->
-  check_shapes (case_kfc m (ldim l) l comps l comps m yc again) = None.
-Proof. intros H H0. exact (check_none_of_safe _ (case_kfc_safe m l comps yc again H H0)). Qed.
+  run (case_kfc m (ldim l) l comps l comps m yc again) = Safe.
+Proof. exact (case_kfc_safe m l comps yc again). Qed.
 
-(* ---- UKF prediction: additive and generic (noise-augmented), every layout including quaternions *)
+(* ---- UKF prediction: constructor (weights), additive and generic (noise-augmented) step, every layout
+        including quaternions *)
 Theorem C14_UKFPrediction_additive_safe l comps : noise l = 0 ->
-  check_shapes (case_ukfp true l comps (lcov l) l) = None.
-Proof. intro H. exact (check_none_of_safe _ (case_ukfp_additive_safe l comps H)). Qed.
+  run (case_ukfp true l comps (lcov l) l) = Safe.
+Proof. exact (case_ukfp_additive_safe l comps). Qed.
 
 Theorem C14_UKFPrediction_generic_safe l comps q : noise l = 0 ->
-  check_shapes (case_ukfp false l comps q l) = None.
-Proof. intro H. exact (check_none_of_safe _ (case_ukfp_generic_safe l comps q H)). Qed.
+  run (case_ukfp false l comps q l) = Safe.
+Proof. exact (case_ukfp_generic_safe l comps q). Qed.
 
-(* ---- UKF correction (generic and additive): linear / Euler states, EVERY measurement layout
-        (quaternion measurements included since e82207d), the evaluation
-        succeeding or failing, followed by getLikelihood(); [again]: then a second correction whose
-        evaluation fails and getLikelihood() once more *)
-Theorem C14_UKFCorrection_safe additive lp comps r valid lm again :
+(* ---- UKF correction (generic — with the augmentation by the measurement noise and optionally weights
+        recomputed online — and additive): linear / Euler states, EVERY measurement layout (quaternion
+        measurements included since e82207d), the evaluation succeeding or failing, followed by
+        getLikelihood(); [again]: then a second correction whose evaluation fails and getLikelihood() *)
+Theorem C14_UKFCorrection_safe additive lp comps r valid lm again online :
   ukfc_valid additive lp r valid lm ->
-  check_shapes (case_ukfc additive lp comps r valid lm (lcov lm) lp comps again) = None.
-Proof. intro H. exact (check_none_of_safe _ (case_ukfc_safe additive lp comps r valid lm again H)). Qed.
+  run (case_ukfc additive lp comps r valid lm (lcov lm) lp comps again online) = Safe.
+Proof. exact (case_ukfc_safe additive lp comps r valid lm again online). Qed.
 
-(* in particular quaternion measurements (the old program and its witness are in C14_Regress.v) *)
-Theorem C14_UKFCorrection_quaternion_measurement_safe additive lp comps r valid mL mC again :
+Theorem C14_UKFCorrection_quaternion_measurement_safe additive lp comps r valid mL mC again online :
   quat lp = false -> noise lp = 0 -> (additive = true -> r = lcov (Lay mL mC true 0)) ->
-  check_shapes (case_ukfc additive lp comps r valid (Lay mL mC true 0) (lcov (Lay mL mC true 0)) lp comps again) = None.
+  run (case_ukfc additive lp comps r valid (Lay mL mC true 0) (lcov (Lay mL mC true 0)) lp comps again online) = Safe.
 Proof.
-  intros H H0 H1. apply check_none_of_safe, case_ukfc_safe. repeat split; try assumption; reflexivity.
+  intros H H0 H1. apply case_ukfc_safe. repeat split; try assumption; reflexivity.
 Qed.
 
 Theorem C14_UKFCorrection_quaternion_state_refuted :
-  check_shapes (case_ukfc true (Lay 2 1 true 0) 1 2 true (Lay 2 0 false 0) 2 (Lay 2 1 true 0) 1 false)
-  = Some (e_ukfc, "pred.mean(i)+K*innovation"%string).
+  run (case_ukfc true (Lay 2 1 true 0) 1 2 true (Lay 2 0 false 0) 2 (Lay 2 1 true 0) 1 false false)
+  = Fails e_ukfc "pred.mean(i)+K*innovation".
 Proof. exact ukfc_quaternion_state_refuted. Qed.
 
-(* ---- serial UKF correction on linear / Euler states, any sub-measurement size, and its likelihood *)
-Theorem C14_SUKFCorrection_safe lp comps msz sub again : quat lp = false -> noise lp = 0 ->
-  check_shapes (case_sukf lp comps msz sub msz msz lp comps again) = None.
-Proof. intros H H0. exact (check_none_of_safe _ (case_sukf_safe lp comps msz sub again H H0)). Qed.
+(* ---- serial UKF correction on linear / Euler states: constructor, any POSITIVE sub-measurement size,
+        full or reduced noise covariance, and its likelihood *)
+Theorem C14_SUKFCorrection_safe reduced lp comps msz sub again :
+  quat lp = false -> noise lp = 0 -> 0 < sub ->
+  run (case_sukf reduced lp comps msz sub (sukf_r reduced msz sub) msz lp comps again) = Safe.
+Proof. exact (case_sukf_safe reduced lp comps msz sub again). Qed.
 
 Theorem C14_SUKFCorrection_quaternion_state_refuted :
-  check_shapes (case_sukf (Lay 2 1 true 0) 1 2 1 2 2 (Lay 2 1 true 0) 1 false)
-  = Some (e_sukf, "propagated.middleCols(size_sigmas*i,size_sigmas)"%string).
+  run (case_sukf false (Lay 2 1 true 0) 1 2 1 2 2 (Lay 2 1 true 0) 1 false)
+  = Fails e_sukf "propagated.middleCols(size_sigmas*i,size_sigmas)".
 Proof. exact sukf_quaternion_state_refuted. Qed.
 
-(* ---- Resampling and ResamplingWithPrior (prior share < 1): every layout, quaternion sets included (d09c5ac) *)
-Theorem C14_Resampling_safe l n : 0 < n -> check_shapes (case_resample l n l n n) = None.
-Proof. intro H. exact (check_none_of_safe _ (case_resample_safe l n H)). Qed.
+(* the noexcept constructor accepts a sub-measurement size of 0; the step then computes meas_size % 0 *)
+Theorem C14_SUKFCorrection_zero_sub_size_refuted :
+  run (case_sukf false (Lay 3 0 false 0) 1 2 0 2 2 (Lay 3 0 false 0) 1 false)
+  = Fails e_sukf "meas_size % measurement_sub_size_".
+Proof. exact sukf_zero_sub_size_refuted. Qed.
+
+(* ---- Resampling (with neff) and ResamplingWithPrior (prior share < 1; including the weight copy,
+        log_sum_exp, the parent mapping and the concatenation): every layout, quaternion sets included *)
+Theorem C14_Resampling_safe l n : 0 < n -> run (case_resample l n l n n) = Safe.
+Proof. exact (case_resample_safe l n). Qed.
 
 Theorem C14_ResamplingWithPrior_safe l n k : noise l = 0 -> k < n ->
-  check_shapes (case_resprior l n k n) = None.
-Proof. intros H H0. exact (check_none_of_safe _ (case_resprior_safe l n k H H0)). Qed.
+  run (case_resprior l n k n) = Safe.
+Proof. exact (case_resprior_safe l n k). Qed.
 
 Theorem C14_ResamplingWithPrior_quaternion_safe L C n k : k < n ->
-  check_shapes (case_resprior (Lay L C true 0) n k n) = None.
-Proof. intro H. exact (check_none_of_safe _ (case_resprior_safe (Lay L C true 0) n k eq_refl H)). Qed.
+  run (case_resprior (Lay L C true 0) n k n) = Safe.
+Proof. exact (case_resprior_safe (Lay L C true 0) n k eq_refl). Qed.
 
 (* ---- density utilities *)
-Theorem C14_gaussian_density_safe r c : check_shapes (case_density r c r r r) = None.
-Proof. exact (check_none_of_safe _ (case_density_safe r c)). Qed.
+Theorem C14_gaussian_density_safe r c : run (case_density r c r r r) = Safe.
+Proof. exact (case_density_safe r c). Qed.
 
 Theorem C14_gaussian_density_UVR_safe r c s bs rc : 0 < bs -> (rc = bs \/ rc = r) ->
-  check_shapes (case_uvr r c r r s s r bs rc) = None.
-Proof. intros H H0. exact (check_none_of_safe _ (case_uvr_safe r c s bs rc H H0)). Qed.
+  run (case_uvr r c r r s s r bs rc) = Safe.
+Proof. exact (case_uvr_safe r c s bs rc). Qed.
+
+Theorem C14_gaussian_density_UVR_zero_block_size_refuted :
+  run (case_uvr 2 1 2 2 3 3 2 0 0) = Fails e_uvr "input_size / block_size".
+Proof. exact uvr_zero_block_size_refuted. Qed.
 
 (* ---- estimate extraction: every method, any window, any number of calls *)
 Theorem C14_EstimatesExtraction_safe w calls stat avg el ec pr n wn pw ln tr tc :
   ext_valid stat el ec pr n wn pw ln tr tc ->
-  check_shapes (case_extract w calls stat avg el ec pr n wn pw ln tr tc) = None.
-Proof. intro H. exact (check_none_of_safe _ (case_extract_safe _ _ _ _ _ _ _ _ _ _ _ _ _ H)). Qed.
+  run (case_extract w calls stat avg el ec pr n wn pw ln tr tc) = Safe.
+Proof. exact (case_extract_safe w calls stat avg el ec pr n wn pw ln tr tc). Qed.
 
 (* ---- non-vacuity: the premises hold on concrete non-trivial configurations, the programs are
-        not empty, and the calculus does reject inputs outside the declared shapes *)
+        not empty, [Safe] is not implied by "nothing fails" ([Threw] is a different verdict), and the
+        calculus does reject inputs outside the declared shapes *)
 Example C14_nonvacuous_programs :
   List.length (case_wna 3 5 6 4 6 4 6 4 6 4) = 35 /\
-  List.length (case_ut 3 (Lay 2 1 true 2) 2 7 true 5 30 (Lay 1 1 true 0) 0 0) = 94 /\
+  List.length (case_ut 3 (Lay 2 1 true 2) 2 7 true 5 30 (Lay 1 1 true 0) 0 0) = 124 /\
   ut_valid 3 (Lay 2 1 true 2) 2 7 true 5 30 (Lay 1 1 true 0) 0 0 /\
   ukfc_valid true (Lay 2 2 false 0) 2 false (Lay 1 1 false 0) /\
   ext_valid 2 2 1 3 4 4 4 4 4 4 /\
@@ -170,14 +196,15 @@ Qed.
 
 Example C14_calculus_rejects_mismatched_inputs :
   (* 4-row states into the 1-D motion model *)
-  check_shapes (case_wna 1 2 4 2 4 2 2 2 2 2) = Some (e_wna_prop, "F*cur_states"%string) /\
+  run (case_wna 1 2 4 2 4 2 2 2 2 2) = Fails e_wna_prop "F*cur_states" /\
   (* an element of another size stored in a 3-dimensional history *)
-  check_shapes (case_history 3 [HAdd 3; HAdd 2; HGet]) = Some (e_h_get, "col(i)=element"%string) /\
-  (* an empty simulated trajectory is rejected by the constructor (an exception, not a failure) *)
-  run (case_simstate 1 0 2 1) = Threw e_sim_ctor "simulation_time >= 1" /\
-  (* a grid initialiser on 2-dimensional states *)
-  check_shapes (case_grid 2 2 4 (Lay 2 0 false 0)) = Some (e_grid, "col<<x,0,y,0"%string) /\
-  (* the library's own validation is a reported exception, not a failure *)
+  run (case_history 3 [HAdd 3; HAdd 2; HGet]) = Fails e_h_get "col(i)=element" /\
+  (* an empty simulated trajectory is rejected by the constructor: an exception, neither Safe nor a failure *)
+  run (case_simstate 1 0 2 [SBuf]) = Threw e_sim_ctor "simulation_time >= 1" /\
+  check_shapes (case_simstate 1 0 2 [SBuf]) = None /\
+  (* after a reset the trajectory is served again *)
+  sim_rets 2 0 [SBuf; SBuf; SBuf; SReset; SBuf] = [true; true; false; true] /\
+  (* the library's own validation is a reported exception *)
   run (case_linsensor 2 2 4 4 [0; 4] 2 2 1 1 4 1) = Threw e_sls_ctor "component index < state size".
 Proof. repeat split; vm_compute; reflexivity. Qed.
 
@@ -187,6 +214,8 @@ Print Assumptions C14_bufferData_exhaustion_reported.
 Print Assumptions C14_SimulatedLinearSensor_safe.
 Print Assumptions C14_HistoryBuffer_safe.
 Print Assumptions C14_InitSurveillanceAreaGrid_safe.
+Print Assumptions C14_InitSurveillanceAreaGrid_state_2d_refuted.
+Print Assumptions C14_InitSurveillanceAreaGrid_state_6d_refuted.
 Print Assumptions C14_sigma_point_safe.
 Print Assumptions C14_augmentWithNoise_safe.
 Print Assumptions C14_unscented_transform_safe.
@@ -200,9 +229,11 @@ Print Assumptions C14_UKFCorrection_quaternion_measurement_safe.
 Print Assumptions C14_UKFCorrection_quaternion_state_refuted.
 Print Assumptions C14_SUKFCorrection_safe.
 Print Assumptions C14_SUKFCorrection_quaternion_state_refuted.
+Print Assumptions C14_SUKFCorrection_zero_sub_size_refuted.
 Print Assumptions C14_Resampling_safe.
 Print Assumptions C14_ResamplingWithPrior_safe.
 Print Assumptions C14_ResamplingWithPrior_quaternion_safe.
 Print Assumptions C14_gaussian_density_safe.
 Print Assumptions C14_gaussian_density_UVR_safe.
+Print Assumptions C14_gaussian_density_UVR_zero_block_size_refuted.
 Print Assumptions C14_EstimatesExtraction_safe.
